@@ -80,18 +80,28 @@ def exhaustive(tier):
 
 
 def required(tier):
-    k = 1 if tier == "quick" else 10
+    if tier == "quick":
+        return {
+            "value_checks_exact": 8000, "value_checks_tolerance": 8000, "ito_twin_checks": 8000,
+            "reduced_merges_observed": 1000, "reduced_structure_checks": 3000,
+            "compact_structure_checks": 4000, "compact_range_checks": 2000,
+            "compact_range_inverse_checks": 300, "compact_special_unchanged": 200,
+            "compact_prefix_changed": 2000, "base_system_structure_checks": 3000,
+            "preferred_checks": 180, "preferred_units_changed": 80, "auto_reduce_checks": 1000,
+            "auto_reduce_merges_observed": 300, "auto_preferred_checks": 80, "nonmult_checks": 30,
+            "systems": 7, "magnitude_kinds": 5, "decades": 55, "units_seen_in_compact": 380,
+            "helpers": 9, "compact_special_kinds": 12,
+        }
     return {
-        "value_checks_exact": 8000 * k, "value_checks_tolerance": 8000 * k,
-        "ito_twin_checks": 8000 * k, "reduced_merges_observed": 1000 * k,
-        "reduced_structure_checks": 3000 * k, "compact_structure_checks": 4000 * k,
-        "compact_range_checks": 2000 * k, "compact_range_inverse_checks": 300 * k,
-        "compact_special_unchanged": 200, "compact_prefix_changed": 2000 * k,
-        "base_system_structure_checks": 3000 * k, "preferred_checks": 300 * k,
-        "preferred_units_changed": 100 * k, "auto_reduce_checks": 1000 * k,
-        "auto_reduce_merges_observed": 300 * k, "auto_preferred_checks": 100 * k,
-        "nonmult_checks": 30, "systems": 7, "magnitude_kinds": 5, "decades": 55,
-        "units_seen_in_compact": 380,
+        "value_checks_exact": 400000, "value_checks_tolerance": 400000, "ito_twin_checks": 400000,
+        "reduced_merges_observed": 50000, "reduced_structure_checks": 150000,
+        "compact_structure_checks": 300000, "compact_range_checks": 100000,
+        "compact_range_inverse_checks": 20000, "compact_special_unchanged": 2000,
+        "compact_prefix_changed": 200000, "base_system_structure_checks": 150000,
+        "preferred_checks": 2500, "preferred_units_changed": 1000, "auto_reduce_checks": 50000,
+        "auto_reduce_merges_observed": 15000, "auto_preferred_checks": 1500, "nonmult_checks": 300,
+        "systems": 7, "magnitude_kinds": 5, "decades": 60, "units_seen_in_compact": 385,
+        "helpers": 9, "compact_special_kinds": 15,
     }
 
 
@@ -590,7 +600,7 @@ class Monitor:
             s += abs(log10abs(tofrac(xn)))
         return s > 290
 
-    def call(self, helper, fn, x, units, extra=None, dst_stress=0.0, **kw):
+    def call(self, helper, fn, x, units, extra=None, dst_stress=0.0, dst_units=(), **kw):
         """run a helper; classify exceptions.  -> (ok, result)"""
         rec = self.rec
         try:
@@ -598,7 +608,8 @@ class Monitor:
         except Exception as ex:  # noqa: BLE001
             name = type(ex).__name__
             rangeish = is_range_error(ex) or (name == "InvalidOperation" and self.reg == "decimal")
-            if rangeish and self.floaty(x, units) and (dst_stress > 290 or self.stressed(helper, x, units)):
+            if rangeish and self.floaty(x, units, *dst_units) and \
+                    (dst_stress > 290 or self.stressed(helper, x, units)):
                 rec.count("skipped_float_range")
                 rec.observe("float_range_errors", f"{helper}:{name}")
                 return False, None
@@ -705,11 +716,12 @@ class Monitor:
             rec.count("uncertainty_checks")
         return True
 
-    def twin(self, helper, ihelper, x, units, r, args=(), dst_stress=0.0, **kw):
+    def twin(self, helper, ihelper, x, units, r, args=(), dst_stress=0.0, dst_units=(), **kw):
         """ito_X on a fresh equal object must leave it equal to r = to_X()."""
         rec = self.rec
         q2 = self.mk(x, units)
-        ok, _ = self.call(ihelper, lambda: getattr(q2, ihelper)(*args), x, units, dst_stress=dst_stress, **kw)
+        ok, _ = self.call(ihelper, lambda: getattr(q2, ihelper)(*args), x, units, dst_stress=dst_stress,
+                          dst_units=dst_units, **kw)
         if not ok:
             return
         rec.count("ito_twin_checks")
@@ -934,6 +946,7 @@ class Monitor:
 # shard bodies
 # ---------------------------------------------------------------------------
 NIT = {"fraction": F, "float": float, "decimal": D}
+PREF_SI6 = ("meter", "kilogram", "second", "newton", "pascal", "watt")
 
 
 def _setup(spec):
@@ -1128,7 +1141,7 @@ def run_auto(spec, rec, rng, pintload, pint, o, names):
     R = o.R
 
     def pref_list(ureg):
-        return [ureg.meter, ureg.kilogram, ureg.second, ureg.newton, ureg.pascal, ureg.watt]
+        return [getattr(ureg, n) for n in PREF_SI6]
 
     configs = [("auto_reduce", dict(auto_reduce_dimensions=True), spec["n"]),
                ("auto_preferred", dict(autoconvert_to_preferred=True), spec["npref"]),
@@ -1196,11 +1209,25 @@ def run_auto(spec, rec, rng, pintload, pint, o, names):
                         (mon.stressed("auto", x, allu) or mon.stressed("auto", y, allu)):
                     rec.count("skipped_float_range")
                     continue
+                shape = mon.raise_shape("ito_reduced_units", allu, name)
+                if name == "DimensionalityError" and kw.get("autoconvert_to_preferred"):
+                    try:
+                        dq = o.R.mmul(o.expand(ua)[1], o.expand(ub)[1], -1 if "div" in op else 1) \
+                            if op in ("mul", "div", "imul", "idiv") else o.expand(ua)[1]
+                        if op == "rdivnum":
+                            dq = o.R.mscale(dq, -1)
+                        for pn in PREF_SI6:
+                            dp = o.info(pn)[1]
+                            if dq and dp.keys() == dq.keys():
+                                k0 = next(iter(dq))
+                                if any(dp[k] * dq[k0] != dq[k] * dp[k0] for k in dq):
+                                    shape = "preferred-unit-with-same-dimension-set-but-not-proportional"
+                    except KeyError:
+                        pass
                 rec.violation("helper-raised",
                               {"a": mag_desc(x), "ua": units_desc(ua), "b": mag_desc(y), "ub": units_desc(ub),
                                "op": op, "error": name, "args": repr(ex.args)[:300]},
-                              helper=cname, clause="raised", registry=regname, error=name, op=op,
-                              shape=mon.raise_shape("ito_reduced_units", allu, name))
+                              helper=cname, clause="raised", registry=regname, error=name, op=op, shape=shape)
                 continue
             if not hasattr(r, "_units"):
                 rec.violation("arithmetic-result-not-a-quantity", {"op": op, "type": type(r).__name__},
@@ -1377,7 +1404,9 @@ def run_preferred(spec, rec, rng, pintload, pint, o, names):
                         shape = {"shape": "preferred-unit-with-same-dimension-set-but-not-proportional"}
         # the destination is unknown when the call raises: any of the listed units, to a power
         dst = 6 * max(o.stress(d) for d in plist_units) if pname == "random" else 0.0
+        dstu = plist_units if pname == "random" else ()
         ok, r = mon.call("to_preferred", lambda: q.to_preferred(plist), x, units, preferred=pname, dst_stress=dst,
+                         dst_units=dstu,
                          extra={"preferred_units": pdesc}, **shape)
         if not ok:
             if pname == "random":
@@ -1391,7 +1420,8 @@ def run_preferred(spec, rec, rng, pintload, pint, o, names):
         if runits != units:
             rec.count("preferred_units_changed")
         mon.value("to_preferred", x, units, r, preferred=pname)
-        mon.twin("to_preferred", "ito_preferred", x, units, r, args=(plist,), dst_stress=dst, preferred=pname)
+        mon.twin("to_preferred", "ito_preferred", x, units, r, args=(plist,), dst_stress=dst, dst_units=dstu,
+                 preferred=pname)
         if i % 53 == 0:
             rec.sample({"workload": "preferred", "registry": regname, "list": pdesc, "magnitude": mag_desc(x),
                         "units": units_desc(units), "result_units": units_desc(runits)})
